@@ -63,6 +63,10 @@ class LoopMixin:
             return "kset", it
         if type(it).__name__ == "SortedKeys":
             return "sorted", it
+        if type(it).__name__ == "ZipV":
+            a, b = it.xs
+            n = z3.If(a.n <= b.n, a.n, b.n)
+            return "seq", SeqV(n, lambda i: PyTuple([a.elem(i), b.elem(i)]))
         if isinstance(it, Sym) and it.kind == "opt":
             return "kset", KSetV([("term", T.topkeys(it.term))])
         raise Unsupported(f"iteration over {it!r}")
